@@ -35,8 +35,8 @@ def grad_case(draw, classes=None):
     # un-centred data scaled by 1000 is legal, but gradient descent with a fixed step legitimately overflows when the
     # features it sees grow like |x|^2 or |x|^6 (KernelRIM trains on kernel rows; polynomial kernels): not generated
     names = [a["name"] for a in (s.get("aff"), s.get("base_kernel"), (s.get("gemini") or {}).get("gs", {}).get("a")) if a]
-    if s["x"]["xkind"] == "huge" and (s["cls"] == "KernelRIM" or any(nm in ("poly", "polynomial") for nm in names)):
-        s["x"]["xkind"] = "scaled"
+    if s["x"]["xkind"] in ("huge", "scaled") and (s["cls"] == "KernelRIM" or any(nm in ("poly", "polynomial") for nm in names)):
+        s["x"]["xkind"] = "normal"
     return {"spec": s, "dtype": draw(st.sampled_from(["float64", "float64", "float32", "int64"]))}
 
 
